@@ -352,9 +352,44 @@ def ks_for(rng, n):
     return rng.choice([0, 1, 2, max(n - 1, 0), n, n + 1, 3, 10])
 
 
+def fixed_group_cases():
+    """run on EVERY seed: every grouped verb on streams mixing records whose group-by field is (a) absent, (b) present
+    and empty, (c) present and non-empty, and for two group-by fields one absent / one empty.  An empty value and a missing
+    field must not share a group (the joined key of the former is "", the latter has no key)."""
+    E = b""
+    s1 = [[(b"a", E), (b"v", b"1")], [(b"b", b"q"), (b"v", b"2")], [(b"a", b"x"), (b"v", b"3")], [(b"a", E), (b"v", b"4")],
+          [(b"v", b"5")], [(b"a", b"x"), (b"v", b"6")], [(b"a", E), (b"v", b"7")], [(b"b", b"q"), (b"v", b"8")]]
+    s2 = [[(b"b", E), (b"v", b"1")], [(b"a", E), (b"v", b"2")], [(b"a", E), (b"b", E), (b"v", b"3")], [(b"a", b"x"), (b"b", E), (b"v", b"4")],
+          [(b"a", E), (b"b", b"x"), (b"v", b"5")], [(b"v", b"6")], [(b"a", E), (b"b", E), (b"v", b"7")], [(b"a", b"x"), (b"b", E), (b"v", b"8")],
+          [(b"b", E), (b"v", b"9")], [(b"a", E), (b"v", b"10")], [(b"b", E), (b"a", E), (b"v", b"11")]]
+    s3 = [[(b"v", b"1")], [(b"a", E), (b"v", b"2")], [(b"v", b"3")], [(b"a", E), (b"v", b"4")], [(b"v", b"5")], [(b"a", E), (b"v", b"6")]]
+    out = []
+    for inp in (s1, s2, s3):
+        for fs in ([b"a"], [b"b"], [b"a", b"b"], [b"b", b"a"]):
+            g = b",".join(fs).decode()
+            G = ["-g", g]
+            for k in (1, 2, -1):
+                out.append((1, [k, 1], [fs], ["head", "-n", str(k)] + G, inp))
+            out.append((2, [1, 0], [fs], ["tail", "-n", "1"] + G, inp))
+            out.append((2, [2, 1], [fs], ["tail", "-n", "+2"] + G, inp))
+            out.append((3, [2, 0, 0], [fs], ["decimate", "-n", "2"] + G, inp))
+            out.append((3, [2, 1, 0], [fs], ["decimate", "-n", "2", "-b"] + G, inp))
+            out.append((8, [], [fs], ["group-by", g], inp))
+            out.append((13, [1, 1], [[b"n"], fs], ["cat", "-n"] + G, inp))
+            out.append((13, [1, 1], [[b"idx"], fs], ["cat", "-N", "idx"] + G, inp))
+            out.append((16, [1], [fs], ["sample", "-k", "1"] + G, inp))
+            out.append((17, [0], [fs, [b"count"]], ["uniq", "-g", g], inp))
+            out.append((18, [0], [fs, [b"count"]], ["uniq", "-g", g, "-c"], inp))
+            out.append((18, [0], [fs, [b"count"]], ["count-distinct", "-f", g], inp))
+            out.append((19, [0], [fs, [b"count"]], ["count-distinct", "-f", g, "-n"], inp))
+            out.append((22, [0], [fs, [b"count"]], ["count-distinct", "-f", g, "-u"], inp))
+            out.append((17, [1], [fs, [b"count"]], ["uniq", "-x", g], inp))
+    return out
+
+
 def gen_cases(ctx):
     rng = ctx.rng
-    ncases = int((1600 if ctx.tier == "quick" else 40000) * SCALE)
+    ncases = int((1450 if ctx.tier == "quick" else 40000) * SCALE)
     nmax = 10 if ctx.tier == "quick" else 24
     cases = []
     for _ in range(ncases):
@@ -460,7 +495,10 @@ def gen_cases(ctx):
         ctx.dist("verb:" + v)
         ctx.dist("n=%s" % ("0" if n == 0 else "1" if n == 1 else "2-5" if n <= 5 else ">5"))
         cases.append((c[0], c[1], c[2], c[3], inp))
-    return cases
+    fixed = fixed_group_cases()
+    for _ in fixed:
+        ctx.dist("fixed grouped-verb block (absent / empty / non-empty group-by fields)")
+    return fixed + cases
 
 
 FILTER_EXPRS = ['$a == "x"', '$x > 2', '$a < $b', 'NR % 2 == 0', 'is_present($b)', '$a =~ "^[xp]"', '$nosuch == 1', 'true', 'false',
